@@ -156,22 +156,28 @@ Definition judge_main (ts : list utree) (cutoff : Q) (o : sexp) : verdict :=
              match audit_ok o with
              | Some m => VOracle m
              | None =>
-               if negb (utree_approx mt g) then VCorr ("model: " ++ show_utree mt)
-               else if negb (counts_agree ts) then VCorr "association-list model and hash-index model count differently"
-               else match consensus ts cutoff with
-                    | Some (Ok ma) =>
-                      if negb (splits_eq approx_len_sup (usplits ma) (usplits g))
-                      then VCorr ("association-list model builds other splits: " ++ show_utree ma)
-                      else
-                        if negb (cutoff_ok cutoff) then VOracle "threshold outside [0.5,1] accepted"
-                        else if differing_taxa ts then VOracle "collection with differing taxa accepted"
-                        else if negb (in_domain ts) then VOk false "outside"
-                        else match oracle_tree cutoff ts g with
-                             | Some m => VOracle (m ++ " [the model agrees with the implementation]")
-                             | None => VOk (nontrivial_case ts)
-                                           (if is_rooted_input ts then "ok:rooted" else "ok")
-                             end
-                    | _ => VCorr "association-list model fails where the hash-index model succeeds"
+               (* the oracle judges the implementation's tree on its own, first *)
+               let corr_msg : option string :=
+                   if negb (utree_approx mt g) then Some ("model: " ++ show_utree mt)
+                   else if negb (counts_agree ts) then Some "association-list model and hash-index model count differently"
+                   else match consensus ts cutoff with
+                        | Some (Ok ma) =>
+                          if negb (splits_eq approx_len_sup (usplits ma) (usplits g))
+                          then Some ("association-list model builds other splits: " ++ show_utree ma)
+                          else None
+                        | _ => Some "association-list model fails where the hash-index model succeeds"
+                        end in
+               let agree := match corr_msg with None => " [the model agrees with the implementation]" | Some _ => "" end in
+               if negb (cutoff_ok cutoff) then VOracle "threshold outside [0.5,1] accepted"
+               else if differing_taxa ts then VOracle "collection with differing taxa accepted"
+               else match (if in_domain ts then oracle_tree cutoff ts g else None) with
+                    | Some m => VOracle (m ++ agree)
+                    | None =>
+                      match corr_msg with
+                      | Some m => VCorr m
+                      | None => if negb (in_domain ts) then VOk false "outside"
+                                else VOk (nontrivial_case ts) (if is_rooted_input ts then "ok:rooted" else "ok")
+                      end
                     end
              end
            end
